@@ -19,8 +19,8 @@ import (
 
 func init() {
 	core.Register(&core.Check{
-		ID: "C22",
-		Rule: "cases: (numeric kind, position, literal, quoted?) where literals are (a) every alternative notation (exponent -25..+25, trailing fraction zeros, upper/lower E, explicit +) of boundary and PRNG integers around each type's limits, (b) those values perturbed by a fraction, (c) PRNG sign/int/frac/exp compositions with digit counts around 19-21, (d) float literals around MaxFloat32/64, the smallest subnormals and rounding ties, (e) syntactically invalid near-numbers; positions: singular, repeated element, map value, wrapper message, dynamicpb; plus base64 strings for bytes fields (all byte strings <= 2 and PRNG), enum names and numbers, and the marshal side (64-bit as strings, bytes as padded standard base64, enums by name or number); distinct = distinct (kind, literal, quoted); non-trivial = literal denotes a non-zero value or is invalid",
+		ID:     "C22",
+		Rule:   "cases: (numeric kind, position, literal, quoted?) where literals are (a) every alternative notation (exponent -25..+25, trailing fraction zeros, upper/lower E, explicit +) of boundary and PRNG integers around each type's limits, (b) those values perturbed by a fraction, (c) PRNG sign/int/frac/exp compositions with digit counts around 19-21, (d) float literals around MaxFloat32/64, the smallest subnormals and rounding ties, (e) syntactically invalid near-numbers; positions: singular, repeated element, map value, wrapper message, dynamicpb; plus base64 strings for bytes fields (all byte strings <= 2 and PRNG), enum names and numbers, and the marshal side (64-bit as strings, bytes as padded standard base64, enums by name or number); distinct = distinct (kind, literal, quoted); non-trivial = literal denotes a non-zero value or is invalid",
 		Assume: []string{"math/big exact arithmetic and big.Rat.Float32/Float64 correct rounding", "model/jsonref.go number grammar (RFC 8259 section 6)", "encoding/base64 and encoding/json of the Go standard library"},
 		Batches: func(tier string) []core.Batch {
 			var bs []core.Batch
@@ -690,7 +690,9 @@ func c22Enum(c *core.Ctx) {
 				continue
 			}
 			wrap := func(l string) string { return `{"` + fd.JSONName() + `":` + l + `}` }
-			get := func(m protoreflect.Message) (protoreflect.EnumNumber, bool) { return m.Get(fd).Enum(), m.Has(fd) || fd.HasPresence() == false }
+			get := func(m protoreflect.Message) (protoreflect.EnumNumber, bool) {
+				return m.Get(fd).Enum(), m.Has(fd) || fd.HasPresence() == false
+			}
 			if fd.IsList() {
 				wrap = func(l string) string { return `{"` + fd.JSONName() + `":[` + l + `]}` }
 				get = func(m protoreflect.Message) (protoreflect.EnumNumber, bool) {
